@@ -482,7 +482,10 @@ def make_graph(ctx: Ctx, gspec: dict, flavour: str = "sync"):
         g = g.bind(**{k: T(v) for k, v in gspec["bind"].items()})
     if gspec.get("select") is not None:
         g = g.select(*gspec["select"])
-    if gspec.get("entry"):
+    if gspec.get("entry") and gspec.get("entry_chain"):
+        for e in gspec["entry"]:
+            g = g.with_entrypoint(e)  # entry points accumulate over chained calls
+    elif gspec.get("entry"):
         g = g.with_entrypoint(*gspec["entry"])
     return g
 
